@@ -182,6 +182,69 @@ def _archive_case(fn, env, args, kwargs):
     return len(first) == 2 and len(second) == 2 and all(x == y for x, y in zip(first, objs)) and all(x == y for x, y in zip(second, objs))
 
 
+_DBG_C3 = """
+module x;
+type struct {
+  int payload;
+  node_t* next;
+} node_t;
+type struct { int a; byte[4] tag; node_t* head; } list_t;
+var node_t* root;
+var list_t lists;
+var int plain;
+function int walk(node_t* n)
+{
+    var int total = 0;
+    while (n != 0)
+    {
+        total = total + n->payload;
+        n = n->next;
+    }
+    return total + plain;
+}
+"""
+_DBG_C = """
+struct tree { struct tree *left, *right; long key; double w[3]; };
+typedef struct tree tree_t;
+static tree_t pool[4];
+long depth(tree_t *t) { long a, b; if (!t) return 0; a = depth(t->left); b = depth(t->right); return 1 + (a > b ? a : b); }
+double sum(tree_t *t, int n) { double s = 0; int i; for (i = 0; i < n; i++) s += t->w[i % 3]; return s + pool[0].key; }
+"""
+
+
+def _debug_case(fn, env, args, kwargs):
+    """objects WITH debug information (self-referential struct types, arrays, pointers, locals) through save / load and an archive"""
+    from ppci.api import c3c, cc
+    from ppci.binutils import debuginfo
+    from ppci.binutils.archive import archive, get_archive
+    from ppci.binutils.objectfile import ObjectFile
+    objs = [c3c([io.StringIO(_DBG_C3)], [], "arm", debug=True), cc(io.StringIO(_DBG_C), "x86_64", debug=True), cc(io.StringIO(_DBG_C), "riscv", debug=True)]
+    why = []
+    for k, o in enumerate(objs):
+        ref = debuginfo.serialize(o.debug_info)
+        f = io.StringIO()
+        o.save(f)
+        o2 = ObjectFile.load(io.StringIO(f.getvalue()))
+        if o2 != o:
+            why.append("object %d: sections / symbols / relocations differ after save + load" % k)
+        if o2.debug_info is None or debuginfo.serialize(o2.debug_info) != ref:
+            why.append("object %d: debug information differs after save + load" % k)
+    lib = archive(objs)
+    f = io.StringIO()
+    lib.save(f)
+    back = list(get_archive(io.StringIO(f.getvalue())))
+    if len(back) != len(objs) or any(debuginfo.serialize(b.debug_info) != debuginfo.serialize(o.debug_info) or b != o for b, o in zip(back, objs)):
+        why.append("archive members differ after save + load")
+    return why
+
+
+CONTRACTS.append(Contract(
+    "ppci.binutils.debuginfo:deserialize", "C14", label="objects with debug information, concrete cases (native)",
+    grid=[{"case": "debug-info"}], make=lambda c, g: {"args": [], "env": {}, "inputs": {}},
+    call=_debug_case, sample_inputs=lambda g, rnd: [{}], replay_args=lambda g, v: {"args": [], "env": {}},
+    ensures=lambda e: [("three compiled objects (C3 / C; arm, x86_64, riscv) with self-referential struct types, arrays, pointers and locals reload with equal "
+                        "contents and equal debug information, directly and through an archive", e.result == [])]))
+
 CONTRACTS.append(Contract(
     "ppci.binutils.archive:Archive.load", "C14", label="Archive / ObjectFile text round trip, concrete cases (native)",
     grid=[{"case": "archive-iterated-twice"}, {"case": "object-json"}], make=lambda c, g: {"args": [], "env": {}, "inputs": {}},
@@ -194,5 +257,5 @@ BOUNDS_TEXT = ("one object with 2 sections, 4 symbols, 2 relocations, 1 image, o
                "integer fields symbolic with either sign (one record kind at a time, the others fixed); section data symbolic with at most 30 bytes")
 ASSUMED = ["T4 hex(n) / int(digits, 16) are an inverse pair (hex digits kept abstract); binascii.hexlify / unhexlify are an inverse pair", "T4 json.dump / json.load are the identity on "
            "JSON-representable values (the symbolic round trip goes serialize -> deserialize directly; the JSON text path is exercised natively on concrete objects)"]
-NOT_COVERED = ["debug information (debuginfo.serialize / deserialize: class dispatch over a type graph, no contract within reach)", "byte-identical re-link of reloaded objects",
+NOT_COVERED = ["debug information beyond three concrete compiled objects (debuginfo.serialize / deserialize: class dispatch over a type graph, no symbolic contract within reach)", "byte-identical re-link of reloaded objects",
                "section data longer than 30 bytes in the symbolic round trip (chunked branch of bin2asc: covered by native samples only)", "objects with more elements than the stated shape"]
